@@ -185,7 +185,7 @@ def run(check):
         "get_timer() are called; handle_timer() is called 1 microsecond after the deadline get_timer() named; no call after ConnectionTerminated was returned",
         "a client only receives datagrams after connect(); configuration is the default one (max_datagram_size 1200): exceptions caused by configuration are out of scope",
         "'every byte string' is covered as every input class in every phase with boundary-value and seeded-random concretisations inside a class, not as an enumeration of bytes",
-        "after the hostile input the run is continued for a bounded number of steps (genuine traffic, timers, then a blackout until the idle timeout of 5 s) - termination is normally reached"]
+        "after the hostile input the run is continued for a bounded number of steps (genuine traffic, timers, then a blackout until the idle timeout of 1.5 s) - termination is normally reached"]
     if check.replay:
         d = json.load(open(check.replay))["detail"]
         if "job" not in d:
@@ -199,11 +199,15 @@ def run(check):
         check.sample({"replayed": {k: v for k, v in job.items() if k != "cls"}, "lines": res[0]["lines"][:6]})
         check.cov["rule"] = "replay of one recorded edge / session"
         return
+    import time
+    t0 = time.time()
+    parts = {}
     r = check.run_tlc("ConnTotal", CFG_M % (1 if check.quick else 2), name="ConnTotal_M", timeout=1800)
     if r.violated:
         check.model_violation(r, "ConnTotal")
         return
     edges = edges_from(r)
+    parts["tlc_model"] = round(time.time() - t0, 1)
     if len(edges) < 10000:
         raise MachineryError("TLC printed only %d edges" % len(edges))
     jobs = make_jobs(check, edges)
@@ -214,10 +218,30 @@ def run(check):
     order = list(range(len(jobs)))
     random.Random(check.seed + 1).shuffle(order)          # spread heavy jobs over the workers
     jobs = [jobs[i] for i in order]
-    results = runner.run_many(job_fn, sess + jobs)
-    sres, jres = results[:nsess], results[nsess:]
-    judge(check, jobs, jres, "TraceConnTotal_R")
-    judge(check, sess, sres, "TraceConnTotal_V")
+    # replay in batches (a thorough run records millions of lines): each batch is judged by TLC and only summaries are kept
+    parts["replay_on_real_connections"] = parts["tlc_trace_validation"] = 0.0
+    BATCH = 12000
+    summaries, sres, samples = [], [], []
+    for b0 in range(0, len(jobs), BATCH):
+        chunk = jobs[b0:b0 + BATCH]
+        t1 = time.time()
+        res = runner.run_many(job_fn, (sess if b0 == 0 else []) + chunk)
+        t2 = time.time()
+        if b0 == 0:          # the sessions (V) are judged together with the first batch of edges (R): one set of TLC processes
+            judge(check, sess + chunk, res, "TraceConnTotal_VR0")
+            sres = [{"hostile": r_["hostile"], "sessions": r_["sessions"], "n": len(r_["lines"])} for r_ in res[:nsess]]
+            res = res[nsess:]
+        else:
+            judge(check, chunk, res, "TraceConnTotal_R%d" % (b0 // BATCH))
+        parts["replay_on_real_connections"] += round(t2 - t1, 1)
+        parts["tlc_trace_validation"] += round(time.time() - t2, 1)
+        for j, r_ in zip(chunk, res):
+            if len(samples) < 2 and r_["summary"]["outcome"] == ("Close", "Progress")[len(samples)]:
+                samples.append({"edge": [j["role"], j["phase"], j["cls"]["lvl"], j["cls"]["name"], j["cls"]["ep"], j["vid"]],
+                                "summary": r_["summary"], "lines": r_["lines"][:8]})
+            summaries.append(r_["summary"])
+    check.cov["wall_parts_s"] = parts
+    jres = [{"summary": sm} for sm in summaries]
     # ---- evidence
     outcomes, covered = {}, set()
     for job, res in zip(jobs, jres):
@@ -229,7 +253,7 @@ def run(check):
                     nontrivial=sm["outcome"] != "Ignored" or job["phase"] in DEAD or bool(sm["raised"]), evaluations=sm["n"])
     hostile_v = sum(r_["hostile"] for r_ in sres)
     for sj, r_ in zip(sess, sres):
-        check.count(("session", sj["seed"]), evaluations=len(r_["lines"]))
+        check.count(("session", sj["seed"]), evaluations=r_["n"])
     if hostile_v < 10000:
         raise MachineryError("random hostile sessions sent only %d datagrams" % hostile_v)
     check.cov.update({"edges_printed_by_tlc": len(edges), "edges_replayed": len(covered), "concretisations_replayed": len(jobs),
@@ -237,12 +261,8 @@ def run(check):
                       "random_sessions": sum(r_["sessions"] for r_ in sres), "hostile_datagrams_in_sessions": hostile_v,
                       "close_codes_seen": sorted({r_["summary"]["code"] for r_ in jres if r_["summary"]["outcome"] == "Close"})[:60],
                       "runs_with_api_exception": sum(1 for r_ in jres if r_["summary"]["raised"])})
-    ex = next((r_ for r_ in jres if r_["summary"]["outcome"] == "Close"), jres[0])
-    j = jobs[jres.index(ex)]
-    check.sample({"edge": [j["role"], j["phase"], j["cls"]["lvl"], j["cls"]["name"], j["cls"]["ep"], j["vid"]], "summary": ex["summary"], "lines": ex["lines"][:8]})
-    ex = next((r_ for r_ in jres if r_["summary"]["outcome"] == "Progress"), jres[-1])
-    j = jobs[jres.index(ex)]
-    check.sample({"edge": [j["role"], j["phase"], j["cls"]["lvl"], j["cls"]["name"], j["cls"]["ep"], j["vid"]], "summary": ex["summary"]})
+    for sm in samples or [{"summary": summaries[0]}]:
+        check.sample(sm)
     check.cov["rule"] = ("one case = one (role, phase, input class, concretisation) replayed on a fresh pair of real connections driven to the phase, "
                          "followed by the API calls until termination; non-trivial = the input was processed (Progress / Close), or it arrived in a "
                          "closing phase, or a call raised; every edge TLC printed is replayed in the thorough tier, the quick tier samples the closing "
